@@ -785,6 +785,18 @@ def rule_io_kind(repo, res):
         res.add(Finding("IO-KIND", "pvl_translate.arg_parser", f"infile mode {imode!r}",
                         f"`{in_attr}` is opened with mode {imode!r}: pvl.load cannot read it (and the input file is truncated)",
                         where=f"pvl/pvl_translate.py:{inode.lineno}"))
+    # line ends: pvl.load(<path>) reads the file as *text* (Path.read_text: universal newlines -- CR and CR LF become LF),
+    # and only falls back to bytes when the text cannot be decoded.  The front end reads the same file the same way when it
+    # hands over a path or a file opened in text mode; a file opened in binary mode is read without the translation, so a
+    # label with CR line ends (where a '#' comment then never ends) loads through the library and not through the tool
+    text_like = ikind == "path" or (ikind == "file" and "b" not in (imode or "r"))
+    res.oblige("IO-KIND", f"pvl_translate reads `{in_attr}` with the line-end translation of pvl.load(path) ({ikind}, mode {imode!r})", ok=text_like)
+    if not text_like:
+        res.add(Finding("IO-KIND", "pvl_translate.arg_parser", f"infile opened in binary mode {imode!r}",
+                        f"`{in_attr}` is opened with mode {imode!r}: the tool reads the bytes as they are while pvl.load(path) reads text with "
+                        "universal newlines, so the same label file -- with CR line ends and a '#' comment, say -- loads through the "
+                        "library and fails (or loads differently) through pvl_translate; line ends are white space of every dialect "
+                        "and must not change what is read", where=f"pvl/pvl_translate.py:{inode.lineno}"))
 
 
 def rule_tb9(repo, res):
@@ -1612,3 +1624,62 @@ def rule_writer_fwd(repo, res):
                             "dumping the loaded label with the chosen encoder writes text -- an empty label still has its END statement",
                             where=f"pvl/pvl_translate.py:{(bad[0] if bad else fn).lineno}"))
     res.floor("writers of pvl_translate", n, 2)
+
+
+def rule_hook_flag(repo, res):
+    """HOOK-FLAG: progress made by the repair hook counts as progress of the module loop.  PVLParser.parse_module runs
+    `while <flag>:`, clears the flag at the top of each round and sets it when a production matched; the hook returns
+    `(module, keep_parsing)`, and on the path where keep_parsing is true the loop's flag is set as well (`flag = True`,
+    `flag = keep_parsing`, `flag = flag or keep_parsing`).  Otherwise a round in which only the hook consumed tokens -- two
+    value-less parameters in a row -- ends the loop, and a label the permissive loader repairs is refused."""
+    from .canon import canon
+    ci = repo.classes.get("PVLParser")
+    if ci is None or "parse_module" not in ci.methods:
+        raise AnalysisError("anchor vanished: PVLParser.parse_module")
+    fn = ci.methods["parse_module"]
+    loops = [w for w in ast.walk(fn) if isinstance(w, ast.While) and isinstance(w.test, ast.Name)]
+    hook_assigns = [a for a in ast.walk(fn) if isinstance(a, ast.Assign) and isinstance(a.value, ast.Call)
+                    and norm(a.value.func) == "self.parse_module_post_hook" and isinstance(a.targets[0], ast.Tuple) and len(a.targets[0].elts) == 2
+                    and isinstance(a.targets[0].elts[1], ast.Name)]
+    if not loops or not hook_assigns:
+        res.notes.append("HOOK-FLAG: parse_module has no `while <name>:` loop with an unpacked hook result; not decided")
+        res.oblige("HOOK-FLAG", "parse_module: loop flag / hook result shape recognised", ok=True, nontrivial=False)
+        return
+    W = loops[0].test.id
+    ok_all = True
+    for a in hook_assigns:
+        F = a.targets[0].elts[1].id
+        sets = False
+        for x in ast.walk(loops[0]):
+            # W = F / W = W or F / W |= F
+            if isinstance(x, ast.Assign) and any(isinstance(t, ast.Name) and t.id == W for t in x.targets) and \
+                    any(isinstance(y, ast.Name) and y.id == F for y in ast.walk(x.value)):
+                sets = True
+            if isinstance(x, ast.AugAssign) and isinstance(x.target, ast.Name) and x.target.id == W and \
+                    any(isinstance(y, ast.Name) and y.id == F for y in ast.walk(x.value)):
+                sets = True
+            if isinstance(x, ast.If):
+                t = x.test
+                pos = isinstance(t, ast.Name) and t.id == F
+                neg = isinstance(t, ast.UnaryOp) and isinstance(t.op, ast.Not) and isinstance(t.operand, ast.Name) and t.operand.id == F
+                arm = x.body if pos else (x.orelse if neg else None)
+                is_set = lambda s_: isinstance(s_, ast.Assign) and any(isinstance(tg, ast.Name) and tg.id == W for tg in s_.targets) \
+                    and isinstance(s_.value, ast.Constant) and s_.value.value is True
+                if arm is not None and any(is_set(s_) for s_ in arm):
+                    sets = True
+                # guard clause: `if not F: return m` (or `if F: pass else: return`), then `W = True` further down the same block
+                other = x.body if neg else (x.orelse if pos else None)
+                if other and isinstance(other[-1], (ast.Return, ast.Raise)) and (neg or pos):
+                    par = getattr(x, "_parent", None)
+                    for field in ("body", "orelse", "finalbody"):
+                        blk = getattr(par, field, None)
+                        if isinstance(blk, list) and x in blk and any(is_set(s_) for s_ in blk[blk.index(x) + 1:]):
+                            sets = True
+        res.oblige("HOOK-FLAG", f"PVLParser.parse_module: when the hook returns {F} = True the loop flag `{W}` is set", ok=sets)
+        if not sets:
+            ok_all = False
+            res.add(Finding("HOOK-FLAG", "PVLParser.parse_module", f"`{F}` does not set `{W}`",
+                            f"PVLParser.parse_module does not set its loop flag `{W}` when parse_module_post_hook returns `{F}` true: a round "
+                            "in which only the repair hook consumed tokens (two value-less parameters in a row, then more statements) ends "
+                            "the loop, and the default loader refuses a label it is meant to repair", where=f"pvl/parser.py:{a.lineno}"))
+    res.floor("hook results unpacked in parse_module", len(hook_assigns), 1)
